@@ -276,16 +276,7 @@ def mon_subscriber_gate(session, ev, name, before, out_i, crash_i):
     mine = out_i.get(c, [])
     if len(mine) == 1 and isinstance(mine[0], RawError):
         return
-    sock = session.impl.socks.get(c)
-    how = 'the command was executed'
-    try:
-        func = getattr(sock, name if name != 'exec' else 'exec_', None) or getattr(sock, name + '_', None)
-        ret = func._fakeredis_sig.apply(list(fields[1:]), sock._db)
-        if len(ret) == 1:
-            how = 'short-circuit: Signature.apply answered for a missing key before the subscriber-mode check'
-    except Exception as e:      # noqa
-        how = 'the command was executed (%s)' % type(e).__name__
-    add(session, 'C10', 'subscriber_mode_refuses', 'subscribed connection %d sent %r and got %r instead of an error; %s' % (c, fields, mine, how))
+    add(session, 'C10', 'subscriber_mode_refuses', 'subscribed connection %d sent %r and got %r instead of an error' % (c, fields, mine))
 
 
 def mon_pubsub(session, ev, name, before, out_i, crash_i):
